@@ -19,7 +19,6 @@ Last-Event-ID, SSE and NDJSON; ids on the wire must be the stored sequences.
 """
 from __future__ import annotations
 
-import json
 import os
 import random
 import shutil
@@ -37,9 +36,11 @@ LEVEL_TEXT = ("Randomised scripts (appenders, subscribers with cursors in [-2, n
 LEVEL_NOTE = ("Trusted: CPython asyncio + sqlite3, the virtual clock (vf/vclock.py), pydantic; the API layer additionally trusts "
               "the starlette shim (/verif/shims/starlette) and vf/asgi_transport.py. Postgres store not exercised (no asyncpg).")
 DESIGN_REF = "§5 C16"
-RULE = ("case = one script (events x appenders x subscribers x disconnect plan x poll interval) run on 4 store configurations; "
-        "distinct = hash of the observed interleaving trace (append / deliver / disconnect / resubscribe order) on the memory "
-        "store; non-trivial = >=2 events appended and >=1 subscriber received >=1 event or used a cursor beyond the log")
+RULE = ("store case = one script (events x appenders x subscribers x disconnect plan x poll interval) run on 4 store "
+        "configurations; distinct = hash of the observed interleaving trace (append / deliver / disconnect / resubscribe order) "
+        "on the memory store; non-trivial = >=2 events appended and >=1 subscriber received >=1 event or used a cursor beyond "
+        "the log.  api case = one handler + event plan + 1-4 GET /events requests; distinct = hash of (backend, plan, per-request "
+        "mode/status/delivered counts); non-trivial = >=1 event delivered on the wire")
 REQUIRED_REACH = ["append_order_checked", "segment_checked", "terminal_end_checked", "resume_checked",
                   "cursor_beyond_end_checked", "cursor_mid_checked", "live_delivery_checked", "backend_equal_checked",
                   "sqlite_single_conn_checked", "sqlite_two_objects_checked", "api_stream_checked"]
@@ -74,7 +75,7 @@ def plan(tier, seed):
     if tier == "quick":
         n, per, api = 16, 90, 10
     else:
-        n, per, api = 64, 900, 60
+        n, per, api = 64, 600, 40
     return [{"seed": seed * 1000 + i, "n": per, "api": api, "tier": tier} for i in range(n)]
 
 
@@ -261,8 +262,6 @@ def run_script(case: dict, backend: str, tmp: str) -> dict:
                         except BaseException:  # noqa: BLE001
                             pass
                         raise
-                    finally:
-                        pass
                     try:
                         await agen.aclose()
                     except BaseException:  # noqa: BLE001
